@@ -156,9 +156,9 @@ func (w *World) doStake(in Intent) {
 
 // MutationFields lists, per event type, the fields the property C14 names.
 var MutationFields = map[string][]string{
-	"TransferToChainEvent":      {"coin", "amount", "fee", "fee_neg", "sender", "sender_0X", "receiver", "receiver_bare", "dest_chain", "height", "height_hi", "tx_hash", "type", "shift_coin_amount", "shift_dec_first", "shift_dec_last", "shift_amount_fee"},
-	"SendToHubEvent":            {"coin", "amount", "sender", "receiver", "height", "height_hi", "tx_hash", "type", "shift_coin_amount", "shift_dec_first", "shift_dec_last"},
-	"BatchExecutedEvent":        {"coin", "batch_nonce", "batch_nonce_hi", "height", "height_hi", "tx_hash", "fee_paid", "fee_paid_neg", "fee_payer", "type"},
+	"TransferToChainEvent":      {"coin", "amount", "amount_hi64", "fee", "fee_hi64", "fee_neg", "sender", "sender_0X", "receiver", "receiver_bare", "dest_chain", "height", "height_hi", "tx_hash", "type", "shift_coin_amount", "shift_dec_first", "shift_dec_last", "shift_amount_fee"},
+	"SendToHubEvent":            {"coin", "amount", "amount_hi64", "sender", "receiver", "height", "height_hi", "tx_hash", "type", "shift_coin_amount", "shift_dec_first", "shift_dec_last"},
+	"BatchExecutedEvent":        {"coin", "batch_nonce", "batch_nonce_hi", "height", "height_hi", "tx_hash", "fee_paid", "fee_paid_hi64", "fee_paid_neg", "fee_payer", "type"},
 	"SignerSetTxExecutedEvent":  {"set_nonce", "set_nonce_hi", "height", "height_hi", "tx_hash", "member_addr", "member_last_addr", "member_zero", "member_power", "member_power_hi", "type"},
 	"ContractCallExecutedEvent": {"scope", "inval_nonce", "inval_nonce_hi", "height", "height_hi", "tx_hash", "type"},
 }
@@ -198,6 +198,13 @@ func (w *World) Mutate(chain string, ev mhub2types.ExternalEvent, mut string) mh
 			c.ExternalCoinId = otherCoin(c.ExternalCoinId)
 		case "amount":
 			c.Amount = c.Amount.Add(one)
+		case "amount_hi64": // differs by exactly 2^64: a 64-bit rendering of the amount anywhere in the identifier collides
+			c.Amount = c.Amount.Add(sdk.NewIntFromBigInt(new(big.Int).Lsh(big.NewInt(1), 64)))
+		case "fee_hi64":
+			if c.Fee.IsNil() {
+				return nil
+			}
+			c.Fee = c.Fee.Add(sdk.NewIntFromBigInt(new(big.Int).Lsh(big.NewInt(1), 64)))
 		case "fee":
 			c.Fee = c.Fee.Add(one)
 		case "fee_neg": // the same magnitude with the other sign (stateless validation only looks at the amount)
@@ -289,6 +296,8 @@ func (w *World) Mutate(chain string, ev mhub2types.ExternalEvent, mut string) mh
 			c.ExternalCoinId = otherCoin(c.ExternalCoinId)
 		case "amount":
 			c.Amount = c.Amount.Add(one)
+		case "amount_hi64":
+			c.Amount = c.Amount.Add(sdk.NewIntFromBigInt(new(big.Int).Lsh(big.NewInt(1), 64)))
 		case "sender":
 			c.Sender = flipHexChar(c.Sender, len(c.Sender)-1)
 		case "receiver":
@@ -358,6 +367,13 @@ func (w *World) Mutate(chain string, ev mhub2types.ExternalEvent, mut string) mh
 				c.FeePaid = one
 			} else {
 				c.FeePaid = c.FeePaid.Add(one)
+			}
+		case "fee_paid_hi64":
+			h := sdk.NewIntFromBigInt(new(big.Int).Lsh(big.NewInt(1), 64))
+			if c.FeePaid.IsNil() {
+				c.FeePaid = h
+			} else {
+				c.FeePaid = c.FeePaid.Add(h)
 			}
 		case "fee_payer":
 			if c.FeePayer == "" {
